@@ -9,7 +9,7 @@ STEPS = ['create', 'genkey', 'encrypt', 'upload-config', 'upload-index', 'search
 IN_SCOPE = {
     'server': ('handle_upload_config', 'handle_upload_encrypted_database'),
     'client': ('handle_create_config', 'handle_create_key', 'handle_encrypt_database', 'handle_upload_config_echo',
-               'handle_upload_encrypted_database_echo'),
+               'handle_upload_encrypted_database_echo', 'record_sname_id_pair', 'create_service'),
 }
 B_CREATED, B_CFG_UP, B_KEY, B_ENC, B_IDX_UP = 1, 2, 4, 8, 16
 
@@ -25,7 +25,7 @@ def describe(tier):
                 'nothing of it runs again), let the survivor run to quiescence, restart the dead component on the same directory, then: a raw '
                 'probe connection must get an init echo reporting the state before or after the interrupted step; Service(sid) must load; the '
                 'interrupted step is retried iff its post-condition does not hold yet; the rest of the workflow runs. Oracle: every step after '
-                'the restart succeeds and the final searches equal DB[w]. Workloads: %s. non-trivial = crash point inside an in-scope handler.'
+                'the restart succeeds and the final searches equal DB[w]. Workloads: %s; plus the small PiBas workflow through frontend/client/commands.py with the service addressed by NAME (the name->id mapping file is then part of the state). non-trivial = crash point inside an in-scope handler.'
                 % ('PiBas with a 3-keyword database; PiBas with an index spanning several 8 KiB write chunks' + (
                     '' if tier == 'quick' else '; Pi2Lev and DP17 with the small database')),
         'bounds': 'all in-scope mutations x {before, after}',
@@ -37,7 +37,7 @@ def describe(tier):
 
 
 def workloads(tier):
-    w = [('PiBas-small', 'CJJ14.PiBas', 'small'), ('PiBas-multichunk', 'CJJ14.PiBas', 'big')]
+    w = [('PiBas-small', 'CJJ14.PiBas', 'small'), ('PiBas-multichunk', 'CJJ14.PiBas', 'big'), ('PiBas-small-cli', 'CJJ14.PiBas', 'small-cli')]
     w += [('Pi2Lev-small', 'CJJ14.Pi2Lev', 'small'), ('DP17-small', 'DP17.Pi', 'small')]
     if tier != 'quick':
         w += [('CT14-small', 'CT14.Pi', 'small'), ('SSE1-small', 'CGKO06.SSE1', 'small'), ('ANSS16-multichunk', 'ANSS16.Scheme3', 'big')]
@@ -45,6 +45,7 @@ def workloads(tier):
 
 
 def make_db(seed, size):
+    size = size.replace('-cli', '')
     g = det.rng(seed, 'c13-db', size)
     if size == 'small':
         return {b'alpha': [g.randbytes(8), g.randbytes(8)], b'beta': [g.randbytes(8)], b'gamma': [g.randbytes(8) for _ in range(3)]}
@@ -70,13 +71,111 @@ class Run:
         self.sid = ''
         self.problems = []
         self.log = []
+        # CLI level: every command goes through frontend/client/commands.py and addresses the service by its NAME, so the
+        # name -> id mapping file written by create-service is part of the persistent state under test
+        self.use_commands = dbsize.endswith('-cli')
+        if self.use_commands:
+            import json as _json
+            self.files = det.workdir('c13cli')
+            self.cfg_path = os.path.join(self.files, 'cfg.json')
+            self.db_path = os.path.join(self.files, 'db.json')
+            _json.dump(self.cfg, open(self.cfg_path, 'w'))
+            _json.dump({w.decode(): [x.hex() for x in ids] for w, ids in self.db.items()}, open(self.db_path, 'w'))
+            self.sname = 'svc'
 
     def close(self):
         self.fs.uninstall()
+        if getattr(self, 'use_commands', False):
+            import shutil
+            shutil.rmtree(self.files, ignore_errors=True)
+            try:
+                import frontend.client.services.service_name_handler as snh
+                os.unlink(str(snh.SERVICE_MAPPING_PATH))
+            except OSError:
+                pass
         self.w.close()
+
+    def cli_commands(self, step, keyword=None):
+        """one command through frontend/client/commands.py in a fresh client component (= a fresh process: module-level caches
+        of the previous command are dropped)"""
+        import io, contextlib, re, ast
+        import frontend.client.commands as cmd
+        import frontend.client.services.service_name_handler as snh
+        self.ncli += 1
+        comp = 'client#%d' % self.ncli
+        setattr(cmd, '__client_service', None)
+        for fn in (snh.read_service_mapping, snh.write_service_mapping):
+            for cell in (fn.__closure__ or ()):
+                try:
+                    if isinstance(cell.cell_contents, dict):
+                        cell.cell_contents = None
+                except ValueError:
+                    pass
+        self.fs.step = step
+        out = {'step': step, 'comp': comp, 'result': None, 'exc': None}
+        buf = io.StringIO()
+
+        def run(f, *a, **k):
+            async def wrapper():
+                res = f(*a, **k)
+                if hasattr(res, '__await__'):
+                    res = await res
+                return res
+            t = self.w.loop.spawn(wrapper(), comp)
+            self.w.loop.run_until(t.done)
+            return t.result()
+        try:
+            with contextlib.redirect_stdout(buf):
+                if step == 'create':
+                    run(cmd.create_service, self.cfg_path, self.sname)
+                elif step == 'genkey':
+                    run(cmd.generate_key, sname=self.sname)
+                elif step == 'encrypt':
+                    run(cmd.encrypt_database, self.db_path, sname=self.sname)
+                elif step == 'upload-config':
+                    run(cmd.upload_config, sname=self.sname)
+                elif step == 'upload-index':
+                    run(cmd.upload_encrypted_database, sname=self.sname)
+                elif step == 'search':
+                    run(cmd.search, keyword.decode(), 'hex', sname=self.sname)
+        except crashfs.Crash:
+            out['exc'] = 'CRASHED'
+        except vnet.Deadlock:
+            out['exc'] = 'Deadlock'
+        except Exception as e:
+            out['exc'] = core.exc_text(e)
+        text = buf.getvalue()
+        if out['exc'] is None and (re.search(r'error', text, re.I) or 'Unsupported' in text):
+            out['exc'] = 'printed: ' + text.strip().splitlines()[-1][:160]
+        if step == 'create':
+            # what a user can know after the command: the name -> id mapping on disk
+            try:
+                import json as _json
+                mp = _json.load(open(str(snh.SERVICE_MAPPING_PATH)))
+                self.sid = mp.get(self.sname, '')
+            except Exception:
+                self.sid = ''
+            root = str(self.m['cfm']._PROGRAM_PATH)
+            for d in os.listdir(root):
+                if os.path.isdir(os.path.join(root, d)) and d not in self.w.client_sids:
+                    self.w.client_sids.append(d)
+                    self.w.sids.append(d)
+        if step == 'search' and out['exc'] is None:
+            m_ = re.search(r'>>> The result is (\[.*?\])\.', text)
+            try:
+                out['result'] = [bytes.fromhex(x) for x in ast.literal_eval(m_.group(1))] if m_ else None
+            except Exception:
+                out['result'] = None
+            if m_ is None:
+                out['exc'] = 'no result printed: ' + text.strip()[-120:]
+        fe.settle(self.w.loop, timers=True)
+        self.log.append((step, out['exc'] or 'ok'))
+        return out
 
     # ---- one CLI command in a fresh client component
     def cli(self, step, keyword=None):
+        if self.use_commands:
+            return self.cli_commands(step, keyword)
         self.ncli += 1
         comp = 'client#%d' % self.ncli
         cl = fe.ClientDriver(self.w, comp)
@@ -153,7 +252,7 @@ class Run:
     def post_ok(self, step):
         fl = self.client_flags()
         if step == 'create':
-            return bool(self.sid)
+            return bool(self.sid) and isinstance(fl, int) and bool(fl & B_CREATED)
         if not isinstance(fl, int):
             return False
         if step == 'genkey':
